@@ -301,6 +301,24 @@ func runHistory(c *Ctx, caseIdx int, rng *rand.Rand, o *HistOpts) *HistRun {
 					}
 					c.Count("mempool-checks-mid-block", 1)
 				}
+				// ... and queries, for the latest and for older heights
+				paths := []string{"account", "delegatee", "stakes", "stakes/total_power", "stakes/voting_power", "reward", "proposal", "gov_params"}
+				for q := 0; q < 3; q++ {
+					p := paths[rng.Intn(len(paths))]
+					var key []byte
+					switch p {
+					case "account", "delegatee", "stakes", "reward":
+						key = g.pick(g.All).Addr
+					}
+					qh := int64(0)
+					if h > 2 && rng.Intn(2) == 0 {
+						qh = 1 + rng.Int63n(h-1)
+					}
+					if _, err := r.Query(p, key, qh); err != nil {
+						return err
+					}
+					c.Count("queries-mid-block", 1)
+				}
 				return nil
 			}
 		}
